@@ -18,7 +18,7 @@ Proof. intros h. apply (incr_from_increasing _ None). apply accept_seq_incr. Qed
 (* The same at byte level (Model.RecvFrame.read_frame = readChunk): any stream of frames, any channel state (client or server,
    any mode incl. None, any instances, OPN chunks of renewals included): the numbers of the chunks readChunk hands on
    strictly increase modulo the roll-over rule. *)
-Theorem C10_frames_increasing : forall un af st frames, increasing (frame_seqs un af st frames).
+Theorem C10_frames_increasing : forall un cc af st frames, increasing (frame_seqs un cc af st frames).
 Proof. intros. apply (incr_from_increasing _ (f_last st)). apply frame_seqs_incr. Qed.
 
 (* the same for a channel state with its instance table (the property's statement) *)
